@@ -109,8 +109,8 @@ func runC10(rt *rapid.T, st *stats.Collector) {
 		rt.Fatalf("Do error %q does not match the context's error %v\n%s", g.doErr, ctx.Err(), describe())
 	}
 	synctest.Wait()
-	if !g.client.IsClosed() || g.e.conn.CloseCalls == 0 {
-		rt.Fatalf("after cancellation IsClosed()=%v, Close calls on the connection=%d\n%s", g.client.IsClosed(), g.e.conn.CloseCalls, describe())
+	if !g.client.IsClosed() || g.e.conn.NumCloseCalls() == 0 {
+		rt.Fatalf("after cancellation IsClosed()=%v, Close calls on the connection=%d\n%s", g.client.IsClosed(), g.e.conn.NumCloseCalls(), describe())
 	}
 	writes, calls := g.e.conn.Snapshot()
 	closeSeq := 1 << 30
@@ -275,7 +275,7 @@ func TestC10HandshakeCancellation(t *testing.T) {
 				rt.Fatalf("handshake returned %v after the cancellation", d)
 			}
 			synctest.Wait()
-			if e.conn.CloseCalls == 0 {
+			if e.conn.NumCloseCalls() == 0 {
 				rt.Fatalf("handshake cancelled, but the connection was not closed; schedule %v", trace)
 			}
 			if leaks := leakedGoroutines(); len(leaks) > 0 {
